@@ -14,7 +14,7 @@ DEFAULT_PROFILE = dict(
     p_seq_exp=0.45,          # probability that a new expectation is sequenced (if sequences exist)
     p_core=0.5,              # probability to draw from the core (run-time bounds, set matcher) shapes
     p_inverted=0.03,
-    p_se_throw=0.08, p_se_nested=0.06,
+    p_se_throw=0.08, p_se_nested=0.06, p_se_destroy=0.0,
     p_full_mask=0.35, p_with_accept=0.6,
     allow_cut=False,         # may the generator step into don't-care territory (only memory safety checked after)
     autoq=True,
@@ -102,6 +102,12 @@ class RandomGen:
             return [o for o in m.objs.values() if o.kind in 'MNW']
 
         def nest_targets():
+            return {e.p['nobj'] for e in m.exps.values() if not e.is_mon and any(e.p.get('se%d' % i) in (2, 3, 5) for i in range(3))}
+
+        def doomed():
+            return {e.p['nobj'] for e in m.exps.values() if not e.is_mon and any(e.p.get('se%d' % i) == 5 for i in range(3))}
+
+        def nested_into():
             return {e.p['nobj'] for e in m.exps.values() if not e.is_mon and any(e.p.get('se%d' % i) in (2, 3) for i in range(3))}
 
         def would_cut_rmseq(s):
@@ -157,7 +163,7 @@ class RandomGen:
                 if r > 1 - pf['p_se_nested'] and s['fn'] not in ('gs', 'r') and 'nobj' not in p:
                     # conditional recursion (nested v(arg-1) while arg>0): may target the expectation's own object,
                     # for an expectation on v that is genuine recursion into the same mock function
-                    tg = [o for o in mock_objs() if o.kind != 'N']
+                    tg = [o for o in mock_objs() if o.kind != 'N' and o.id not in doomed()]
                     if tg:
                         own = [o for o in tg if o.id == ob.id]
                         p['se%d' % i] = 3
@@ -166,10 +172,14 @@ class RandomGen:
                 if s['fn'] == 'r' and rng.random() < 0.4:
                     p['se%d' % i] = 4        # write through the in/out parameter
                     continue
+                if pf['p_se_destroy'] and rng.random() < pf['p_se_destroy'] and s['fn'] != 'r' and 'nobj' not in p and ob.id not in nested_into():
+                    p['se%d' % i] = 5        # this side effect destroys the mock object the call is made on
+                    p['nobj'] = ob.id
+                    continue
                 if r < pf['p_se_throw']:
                     p['se%d' % i] = 1
                 elif r < pf['p_se_throw'] + pf['p_se_nested']:
-                    tg = [o for o in mock_objs() if o.id != ob.id and o.kind != 'N']
+                    tg = [o for o in mock_objs() if o.id != ob.id and o.kind != 'N' and o.id not in doomed()]
                     # the nested target function is always v: an expectation on v never nests itself (no call cycles)
                     if tg and s['fn'] not in ('v', 'r') and 'nobj' not in p:
                         p['se%d' % i] = 2
